@@ -126,6 +126,21 @@ class FixedView(_Concat, collections.abc.Sequence):
         return self.seq[self.start + key]
 
 
+def _just(self, width, fillbyte, left):
+    """bytes.ljust / rjust on a symbolic string: CrossHair's fallback realises the whole string outside the tracer"""
+    inner = self.inner
+    if len(inner) >= width:
+        return self
+    fill = fillbyte[0]
+    out = [b for b in inner]
+    pad = [fill] * (width - len(out))
+    return SymbolicBytes(FixedSeq(out + pad if left else pad + out))
+
+
+SymbolicBytes.ljust = lambda self, width, fillbyte=b" ": _just(self, width, fillbyte, True)
+SymbolicBytes.rjust = lambda self, width, fillbyte=b" ": _just(self, width, fillbyte, False)
+
+
 def fix(raw, length):
     """re-wrap CrossHair's symbolic bytes argument (already constrained to len == length)"""
     with NoTracing():
